@@ -76,10 +76,13 @@ class Ctx:
 
     def finish_floors(self):
         cnt = {}
+        failed = set()
         for o in self.obs:
             cnt[o.rule] = cnt.get(o.rule, 0) + 1
+            if not o.ok:
+                failed.add(o.rule)
         for rid, fl in self.floors.items():
-            if cnt.get(rid, 0) < fl:
+            if cnt.get(rid, 0) < fl and rid not in failed:
                 self.bad(rid, "floor:" + rid, "rule matched %d instance(s), fewer than the %d confirmed by hand — rule went blind"
                          % (cnt.get(rid, 0), fl), None, "a rule that matches nothing must not pass vacuously")
 
